@@ -5,6 +5,7 @@ import ast
 import pathlib
 from typing import Any, Dict, Iterator, List, Optional, Sequence, Tuple
 
+from harness import extract
 from harness.core import Ctx, corpus, crash_name
 from harness.extract import ExtractError, HEADER, _class, _func, _parse
 
@@ -30,7 +31,10 @@ def _is_not_none(node: ast.AST) -> Optional[str]:
     return None
 
 
-def _chain_rows(first: ast.If) -> List[Tuple[str, Optional[Tuple[str, int]]]]:
+def _chain_rows(first: ast.If, returns: bool = False) -> List[Tuple[str, Optional[Tuple[str, int]]]]:
+    """The rows of an ``if node.op is <op>: ... elif ...: ... else: assert_never(node.op)`` ladder whose branches are
+    ``constraint = <Kind>(node=node, value=constant (+|-) k)`` / ``pass`` — or, with ``returns`` (the ladder is the body of a
+    helper whose result is assigned to ``constraint``), ``return <Kind>(...)`` / ``return None``."""
     rows: List[Tuple[str, Optional[Tuple[str, int]]]] = []
     cur: ast.stmt = first
     while True:
@@ -52,6 +56,14 @@ def _chain_rows(first: ast.If) -> List[Tuple[str, Optional[Tuple[str, int]]]]:
         if len(body) != 1:
             raise ExtractError(f"operator chain: branch {opname} has {len(body)} statements")
         st = body[0]
+        if returns and isinstance(st, ast.Return):
+            # `return <expr>` in the helper stands for `constraint = <expr>` at the call
+            if st.value is None or (isinstance(st.value, ast.Constant) and st.value.value is None):
+                st = ast.Pass()
+            else:
+                st = ast.Assign(targets=[ast.Name(id="constraint", ctx=ast.Store())], value=st.value)
+        elif returns:
+            raise ExtractError(f"branch {opname} of the helper: unexpected statement {ast.unparse(st)[:80]}")
         if isinstance(st, ast.Pass):
             rows.append((_OPS[opname], None))
         elif (
@@ -128,12 +140,25 @@ def gen_Len(repo: pathlib.Path) -> str:
                 continue
             if {side_of_len, side_of_const} != {"left", "right"}:
                 raise ExtractError(f"len side {side_of_len!r} / constant side {side_of_const!r}")
-            if not st.body or not isinstance(st.body[0], ast.If):
+            # the ladder stands at the start of the block, or is the whole body of a module-level helper whose result
+            # is assigned to `constraint` there (the parameters are read as the arguments of the call)
+            chain: Any = st.body[0] if st.body else None
+            in_helper = False
+            if (
+                isinstance(chain, ast.Assign)
+                and len(chain.targets) == 1
+                and isinstance(chain.targets[0], ast.Name)
+                and chain.targets[0].id == "constraint"
+            ):
+                helper = extract.helper_body_at_call(mod, chain.value)
+                if helper is not None and len(helper) == 1:
+                    chain, in_helper = helper[0], True
+            if not isinstance(chain, ast.If):
                 raise ExtractError("no operator chain at the start of the matching block")
             key = "lenOnLeft" if side_of_len == "left" else "constOnLeft"
             if key in tables:
                 raise ExtractError(f"two blocks for {key}")
-            tables[key] = _chain_rows(st.body[0])
+            tables[key] = _chain_rows(chain, returns=in_helper)
             tail = st.body[1:]
             if not (
                 len(tail) == 1
